@@ -69,6 +69,15 @@ Step12(c) ==          \* step1 ; step2 with nothing in between
   /\ cbuf' = Regenerate(term')
   /\ op' = [kind |-> "step12", c |-> c]
 
+\* n consecutive step() calls with the same controls (long quiet stretches: lets worlds fall asleep, buffers wrap around)
+RECURSIVE Repeat(_, _, _)
+Repeat(t, ev, n) == IF n = 0 THEN t ELSE Repeat(Append(t, ev), ev, n - 1)
+StepN(c, n) ==
+  /\ "stepn" \in Ops
+  /\ term' = [w \in Worlds |-> Repeat(term[w], StepEv(c[w]), n)]
+  /\ cbuf' = Regenerate(term')
+  /\ op' = [kind |-> "stepn", c |-> c, n |-> n]
+
 Forward ==
   /\ "forward" \in Ops
   /\ UNCHANGED term
@@ -107,7 +116,7 @@ CopyState(a, b) ==
 
 Next ==
   /\ TLCGet("level") < MaxLevel
-  /\ \/ \E c \in Pick([Worlds -> Ctrls]) : Step(c) \/ Step12(c)
+  /\ \/ \E c \in Pick([Worlds -> Ctrls]) : Step(c) \/ Step12(c) \/ StepN(c, 12)
      \/ Forward
      \/ \E m \in Pick(Masks) : ResetData(m, FALSE)
      \/ ResetData([w \in Worlds |-> TRUE], TRUE)
